@@ -23,11 +23,14 @@ vars == <<c, rule, data, phase, stack, ret, out, evals, dup>>
 \* ---------------- C05 alphabet
 Zf(s, x) == [t |-> "n", k |-> "f", s |-> s, m |-> <<>>, e |-> 0, x |-> x]
 FalsyVals == <<IntV(0), Zf(0, <<48, 46, 48>>), Zf(1, <<45, 48, 46, 48>>), Str(<<>>), Arr(<<>>), False, Null>>
+\* truthy values of every kind: strings ("T1", "0"), the smallest positive double 5e-324, [0], {}, -1, [[]]
+Tiny == [t |-> "n", k |-> "f", s |-> 0, m |-> <<1>>, e |-> -1074, x |-> <<53, 101, 45, 51, 50, 52>>]
+TruthyVals == <<Str(<<84, 49>>), Tiny, Arr(<<IntV(0)>>), Str(<<48>>), Obj(<<>>), IntV(-1), Arr(<<Arr(<<>>)>>)>>
 PKey(i) == <<112, 48 + i>>
 D05 == Obj(<< <<PKey(1), Str(<<120>>)>>, <<PKey(2), IntV(0)>>, <<PKey(3), Arr(<<IntV(1)>>)>>, <<PKey(4), Null>>,
               <<PKey(5), Str(<<>>)>>, <<PKey(6), Obj(<<>>)>>, <<PKey(7), False>> >>)
 Sym(s, i) ==
-  CASE s = 1 -> Op(K_log, <<Str(<<84, 48 + i>>)>>)                       \* truthy probe "Ti"
+  CASE s = 1 -> Op(K_log, <<TruthyVals[i]>>)                              \* truthy probe (distinct truthy value per position)
     [] s = 2 -> Op(K_log, <<FalsyVals[i]>>)                               \* falsy probe (distinct falsy value per position)
     [] s = 3 -> Op(K_add, <<Str(<<120>>)>>)                               \* eval-poison
     [] s = 4 -> Op(K_eq, <<IntV(1)>>)                                     \* parse-poison
